@@ -171,6 +171,7 @@ func (c *SizedLRU) RegisterMetrics() {
 // BlockSize (4096) bytes, as an estimate of actual disk usage since
 // most linux filesystems default to 4kb blocks.
 func (c *SizedLRU) Add(key string, value lruItem) (ok bool) {
+	defer c.verifAdd(key, value, &ok)
 
 	roundedUpSizeOnDisk := roundUp4k(value.sizeOnDisk)
 
@@ -233,6 +234,7 @@ func (c *SizedLRU) Add(key string, value lruItem) (ok bool) {
 
 // Get looks up a key in the cache. The lruItem is only valid if *list.Element is not nil.
 func (c *SizedLRU) Get(key string) (lruItem, *list.Element) {
+	defer c.verifGet(key)
 	if ele, hit := c.cache[key]; hit {
 		c.ll.MoveToFront(ele)
 		return ele.Value.(*entry).value, ele
@@ -243,6 +245,7 @@ func (c *SizedLRU) Get(key string) (lruItem, *list.Element) {
 
 // Remove removes a (key, value) from the cache.
 func (c *SizedLRU) RemoveKey(key string) {
+	defer c.verifRemoved(key)
 	if elem, hit := c.cache[key]; hit {
 		c.removeElement(elem)
 		c.gaugeCacheLogicalBytes.Set(float64(c.uncompressedSize))
@@ -251,6 +254,7 @@ func (c *SizedLRU) RemoveKey(key string) {
 
 // Remove a *list.Element from the cache.
 func (c *SizedLRU) RemoveElement(elem *list.Element) {
+	defer c.verifRemoved(elem.Value.(*entry).key)
 	c.removeElement(elem)
 	c.gaugeCacheLogicalBytes.Set(float64(c.uncompressedSize))
 }
@@ -294,6 +298,7 @@ func sumLargerThan(a, b, c int64) bool {
 var errReservation = errors.New("internal reservation error")
 
 func (c *SizedLRU) Reserve(size int64) error {
+	defer c.verifReserve(size)()
 	if size == 0 {
 		return nil
 	}
@@ -336,6 +341,7 @@ func (c *SizedLRU) Reserve(size int64) error {
 	// value (returned as totalDiskSizeNow) is used both for the metrics
 	// gauge and the logic for deciding about rejection.
 	totalDiskSizeNow := c.calcTotalDiskSizeAndUpdatePeak(size)
+	c.verifTot(totalDiskSizeNow)
 
 	if c.maxSizeHardLimit > 0 && totalDiskSizeNow > (uint64(c.maxSizeHardLimit)) {
 
@@ -373,6 +379,7 @@ func (c *SizedLRU) Reserve(size int64) error {
 }
 
 func (c *SizedLRU) Unreserve(size int64) error {
+	defer c.verifUnreserve(size)()
 	if size == 0 {
 		return nil
 	}
@@ -395,6 +402,7 @@ func (c *SizedLRU) Unreserve(size int64) error {
 }
 
 func (c *SizedLRU) removeElement(e *list.Element) {
+	c.verifRemove(e)
 	c.ll.Remove(e)
 	kv := e.Value.(*entry)
 	delete(c.cache, kv.key)
@@ -425,6 +433,7 @@ func (c *SizedLRU) getTailItem() (string, lruItem, bool) {
 // The diskCache.mu mutex should be held when invoking this method (to prevent
 // queuedEvictionsChan from potentially becoming full and blocking calls).
 func (c *SizedLRU) appendEvictionToQueue(e *entry) {
+	c.verifQueued(e)
 	c.queuedEvictionsSize.Add(e.value.sizeOnDisk)
 
 	select {
@@ -444,8 +453,11 @@ func (c *SizedLRU) performQueuedEvictions() {
 	sliceOfEntries := <-c.queuedEvictionsChan
 
 	for _, kv := range sliceOfEntries {
+		c.verifGate("evict")
 		c.onEvict(kv.key, kv.value)
+		c.verifEvict("EvictStart", kv)
 		c.queuedEvictionsSize.Add(-kv.value.sizeOnDisk)
+		c.verifEvict("EvictDone", kv)
 	}
 }
 
